@@ -662,6 +662,8 @@ class DateTimeFieldFormat(AbstractFieldFormat):
             not self._has_time
             and (self.data_format.format == data.FORMAT_EXCEL)
             and (value.endswith(DateTimeFieldFormat._NO_EXCEL_TIME))
+            # NOTE: Keep the time in case the rule spells it out like "YYYY-MM-DD 00:00:00".
+            and not self.human_readable_format.endswith(DateTimeFieldFormat._NO_EXCEL_TIME)
         ):
             value_to_validate = value[: -DateTimeFieldFormat._NO_EXCEL_TIME_LENGTH]
         else:
